@@ -459,7 +459,7 @@ func buildC09(tier string) *core.Plan {
 		}}
 
 	return &core.Plan{
-		Spaces: []core.Space{mapOrder, keyOrder, sched, free, cli},
+		Spaces: []core.Space{mapOrder, keyOrder, sched, free, cli, c09RewrittenFiles()},
 		Rule: "for each input, every execution with <= bound non-default picks at the instrumented map-range sites (all sites found by vinstr in the working tree, insert-during-range latitude included); " +
 			"every interleaving with <= 2 pre-emptions (3 threads: <= 1) at accesses to mutable package-level variables; non-trivial = the input reaches at least one map-order choice point",
 		Assumptions: []string{"map iteration inside dependencies (yaml.v3, go-toml, encoding/json) is not controlled; encoding/json and go-toml sort keys, yaml.v3 sorts keys on output",
@@ -572,4 +572,50 @@ func headTailS(s string, n int) string {
 		return s
 	}
 	return s[:n] + "\n...\n" + s[len(s)-n:]
+}
+
+// c09RewrittenFiles: the same paths evaluated again in the same process after the files changed.
+// "A function of its inputs" includes the files' current contents: what an earlier evaluation in
+// this process read from the same path must not show through.
+func c09RewrittenFiles() core.Space {
+	type step struct {
+		parent, child string // "" = file removed
+		want          string
+	}
+	scenarios := [][]step{
+		{{"v: 1\nw: x\n", "c: 1\n", `OK {"c":1,"v":1,"w":"x"}`}, {"v: 2\nw: x\n", "c: 1\n", `OK {"c":1,"v":2,"w":"x"}`}, {"v: 2\nw: x\n", "c: 9\n", `OK {"c":9,"v":2,"w":"x"}`}},
+		{{"v: 1\n", "c: 1\n", `OK {"c":1,"v":1}`}, {"", "c: 1\n", "ERR"}, {"v: 3\n", "c: 1\n", `OK {"c":1,"v":3}`}},
+		{{"v: [\n", "c: 1\n", "ERR"}, {"v: 1\n", "c: 1\n", `OK {"c":1,"v":1}`}, {"v: 1\n", "c: $required\n", "ERR"}, {"v: 1\n", "c: 2\n", `OK {"c":2,"v":1}`}},
+	}
+	return core.Space{Name: "same-paths-after-the-files-were-rewritten", N: int64(len(scenarios)), Chunk: 1,
+		Desc: func(i int64) any { return scenarios[i] },
+		Run: func(c *core.Ctx, i int64) {
+			dir := scratchDir()
+			defer os.RemoveAll(dir)
+			pa, ch := filepath.Join(dir, "a.yaml"), filepath.Join(dir, "a.b.yaml")
+			for k, st := range scenarios[i] {
+				os.Remove(pa)
+				if st.parent != "" {
+					os.WriteFile(pa, []byte(st.parent), 0o644)
+				}
+				os.WriteFile(ch, []byte(st.child), 0o644)
+				c.Eval()
+				c.Trans(2)
+				obs := "ERR"
+				p := newParser()
+				if err := p.MergeFileLayers(ch); err == nil {
+					if b, err := p.Output("json"); err == nil {
+						obs = "OK " + strings.TrimSpace(string(b))
+					}
+				}
+				c.Validated()
+				c.Nontrivial()
+				if obs != st.want {
+					c.Outcome("STALE-FILE-CONTENT")
+					c.Fail("rewritten-files", "evaluation-does-not-follow-current-file-contents", fmt.Sprintf("scenario %d step %d", i, k), map[string]any{"steps": scenarios[i][:k+1], "got": obs, "want": st.want})
+					return
+				}
+			}
+			c.Outcome("follows-file-contents")
+		}}
 }
